@@ -6,6 +6,7 @@ tools/seedrun.sh (scratch worktree; /repo and /verif/evidence untouched) and
 rewrites own_check_fired / checks_that_fired / first_violation_lines /
 final_run in its meta.json."""
 import json, os, subprocess, sys, time, glob
+HERE = os.path.dirname(os.path.dirname(os.path.abspath(__file__)))  # the tree this script lives in (a vp-run snapshot or /verif)
 from concurrent.futures import ThreadPoolExecutor
 
 ALL = ['C%02d' % i for i in range(1, 21)]
@@ -22,7 +23,7 @@ if args == ['--all']:
 slots = list(range(jobs))
 
 def run(slot, patch, ids):
-    out = subprocess.run(['/verif/tools/seedrun.sh', '-s', 'r%d' % slot, patch, 'quick'] + ids,
+    out = subprocess.run([HERE + '/tools/seedrun.sh', '-s', 'r%d' % slot, patch, 'quick'] + ids,
                          capture_output=True, text=True, timeout=7200).stdout
     fired = []
     lines = []
@@ -58,4 +59,4 @@ def one(name):
 with ThreadPoolExecutor(jobs) as ex:
     list(ex.map(one, args))
 for s in range(jobs):
-    subprocess.run(['/verif/tools/seedrun.sh', '-s', 'r%d' % s, '--clean'])
+    subprocess.run([HERE + '/tools/seedrun.sh', '-s', 'r%d' % s, '--clean'])
